@@ -3,6 +3,8 @@
    - code 2: the implementation's observation violates the property over the hand-written SPECIFICATION tables
      (an untrusted remote caller let in outside open_spec; a remote caller let in on a local-only endpoint;
       an update signed by an untrusted peer merged),
+   - code 10: a call an untrusted remote caller was let in with did something on the peer that is not in the hand-written
+     effect table of that (open) endpoint (Model/C07_Spec.v open_effects),
    - code 1 for the trust observations (IsTrustedPeer histories, validated broadcasts) against trust_crdt / validator.
    Model/C07_Check.v adds the comparison with the generated policy table. The runner falls back to this module
    (spec key check_fallback) when Model/C07_Check.v does not compile. *)
@@ -21,6 +23,9 @@ Definition trust_of (m : tmode) (p : N) : bool :=
 Inductive c07case :=
 (* caller (0 = the peer itself through its own client), endpoint, observed: true = anything but an authorization error *)
 | CAuth (m : tmode) (caller : N) (ep : string) (passed : bool)
+(* what a call by a remote caller that was let in DID on the called peer: the component calls it caused (the harness's
+   recording fakes), named as in Model/C07_Spec.v *)
+| CEffects (m : tmode) (caller : N) (ep : string) (effs : list string)
 (* endpoints found by reflection on the service objects; the policy map the configuration carries at run time;
    isRPCPolicyValid's verdict on it *)
 | CMethods (l : list string)
@@ -41,6 +46,11 @@ Fixpoint seqN (start : N) (n : nat) : list N :=
 
 Definition fail1 (id : N) (b : bool) : list (N * N * N) := if b then [] else [(id, 1%N, 0%N)].
 Definition fail2 (id : N) (b : bool) : list (N * N * N) := if b then [] else [(id, 2%N, 0%N)].
+Definition fail10 (id : N) (b : bool) : list (N * N * N) := if b then [] else [(id, 10%N, 0%N)].
+
+(* an untrusted remote caller's admitted call did nothing outside the allowed effects of its endpoint *)
+Definition effects_okb (m : tmode) (caller : N) (ep : string) (effs : list string) : bool :=
+  N.eqb caller 0 || trust_of m caller || forallb (fun x => mem_str x (allowed_effects ep)) effs.
 
 Definition check_case_spec (c : N * c07case) : list (N * N * N) :=
   let '(id, k) := c in
@@ -50,6 +60,7 @@ Definition check_case_spec (c : N * c07case) : list (N * N * N) :=
       (* a remote caller that is let in is calling an open endpoint, or is trusted and calling an endpoint that is not local-only *)
       fail2 id (negb passed || local || mem_str ep open_spec
                 || (trust_of m caller && negb (mem_str ep local_only_spec)))
+  | CEffects m caller ep effs => fail10 id (effects_okb m caller ep effs)
   | CTrust star l h obs =>
       fail1 id (list_eqb Bool.eqb (map (trust_crdt (mk_crdt_cfg star 0%N l) h) (seqN 0 (length obs))) obs)
   | CTrustJ tp env h obs =>
